@@ -93,6 +93,25 @@ def specs(tier: str) -> List[tuple]:
         for outer_req, outer_pop, outer_dyn in ((True, True, 'static'), (False, True, 'static'), (True, False, 'dynamic'),
                                                 (False, False, 'dynamic_int')):
             out.append(('ns', True, 'static', True, None, (('n', ('ns', outer_req, outer_dyn, outer_pop, None, (('m', mid),))),)))
+    # (6) a namespace that has a default of its own (a mapping, plain or callable), next to an optional port so that several
+    #     accepted inputs leave the namespace out
+    side = ('x', ('port', False, 'int', NODEFAULT, None))
+    ns_defaults = ((), (('x', 1),), (('x', 'a'),), (('u', 1),))
+    for entries in ([()] + [(('x', p),) for p in SMALL_PORTS] + [(('x', SMALL_PORTS[1]), ('y', SMALL_PORTS[3]))]):
+        for required in (True, False):
+            for dyn in ('static', 'dynamic'):
+                for populate in (True, False):
+                    for how in ('value', 'callable'):
+                        for dflt in ns_defaults:
+                            out.append(('ns', True, 'static', True, None,
+                                        (side, ('n', ('ns', required, dyn, populate, None, entries, (how, dflt))))))
+    # ... and at depth 3: the default of the outer namespace holds a mapping for the inner one
+    for mid_entries in ((('x', SMALL_PORTS[1]),), (('x', SMALL_PORTS[0]), ('y', SMALL_PORTS[3]))):
+        for how in ('value', 'callable'):
+            for dflt in ((), (('m', ()),), (('m', (('x', 1),)),)):
+                for mid_pop in (True, False):
+                    mid = ('ns', False, 'static', mid_pop, None, mid_entries)
+                    out.append(('ns', True, 'static', True, None, (side, ('n', ('ns', False, 'static', True, None, (('m', mid),), (how, dflt))))))
     return out
 
 
@@ -135,9 +154,18 @@ def build_namespace(namespace: pports.PortNamespace, desc: tuple) -> None:
         else:
             sub = pports.PortNamespace(name, required=e[1], dynamic=e[2] != 'static',
                                        valid_type=int if e[2] == 'dynamic_int' else None, populate_defaults=e[3],
-                                       validator=R.ns_validator if e[4] else None)
+                                       validator=R.ns_validator if e[4] else None, **ns_default_kwargs(e))
             namespace[name] = sub
             build_namespace(sub, e)
+
+
+def ns_default_kwargs(e: tuple) -> Dict[str, Any]:
+    d = R.ns_default(e)
+    if d == NODEFAULT:
+        return {}
+    if d[0] == 'value':
+        return {'default': R.pairs_to_dict(d[1])}
+    return {'default': lambda v=d[1]: R.pairs_to_dict(v)}
 
 
 def make_class(desc: tuple) -> type:
@@ -193,6 +221,8 @@ def feature_of(desc: tuple) -> Dict[str, Any]:
                 kinds.add(e[2])
             if e[4]:
                 kinds.add('ns-validator')
+            if R.ns_default(e) != NODEFAULT:
+                kinds.add('ns-default-' + R.ns_default(e)[0])
             for _, sub in e[5]:
                 walk(sub, depth + 1)
 
@@ -205,8 +235,10 @@ def check_spec(desc: tuple) -> Dict[str, Any]:
     cls = make_class(desc)
     loop = VLoop()
     loop.install()
+    first_accepted: List[Tuple[Any, Any]] = []
     try:
-        for given in inputs_for(desc):
+        all_inputs = inputs_for(desc)
+        for given in all_inputs:
             out['n'] += 1
             caller = copy.deepcopy(given)
             snapshot = copy.deepcopy(given)
@@ -240,6 +272,8 @@ def check_spec(desc: tuple) -> Dict[str, Any]:
                 continue
             out['accepted'] += 1
             got = plain(proc.inputs)
+            if len(first_accepted) < 3:
+                first_accepted.append((snapshot, copy.deepcopy(got)))
             if R.prune(got) != R.prune(want):
                 violate('inputs-differ', {'got': got, 'want': want})
             raw = plain(proc.raw_inputs)
@@ -270,6 +304,20 @@ def check_spec(desc: tuple) -> Dict[str, Any]:
                     violate('inputs-mutable', {'path': list(path)}, level='.'.join(path) or '<top>')
                     break
             proc.close()
+        # what a process gets does not depend on the processes of the class built (and poked at) before it
+        for given, earlier in first_accepted:
+            out['n'] += 1
+            try:
+                proc = cls(inputs=copy.deepcopy(given), pid='c11', loop=loop)
+                again: Any = plain(proc.inputs)
+                proc.close()
+            except Exception as exc:  # noqa: BLE001
+                again = f'raised {exc!r}'
+            if again != earlier:
+                f = feature_of(desc)
+                out['violations'].append({'clause': 'inputs-depend-on-earlier-processes', 'features': f,
+                                          'detail': {'first': earlier, 'later': again}, 'case': {'spec': desc, 'inputs': given}})
+                break
     finally:
         loop.shutdown()
     return out
@@ -328,16 +376,18 @@ def run_check(tier: str, seed: int, workers: Any) -> Dict[str, Any]:
         'rule': 'specs = every InputPort attribute combination (required x valid_type x default none/value/callable x '
                 'validator) under static/dynamic/typed-dynamic and validated top levels, pairs of ports, one nested '
                 'namespace over every attribute combination (required x static/dynamic/typed x populate_defaults x '
-                'validator) with 0-2 ports, namespace next to a port, depth-3 nesting; inputs = every nested dictionary '
+                'validator) with 0-2 ports, namespace next to a port, depth-3 nesting, namespaces with a default mapping of their '
+                'own (plain or callable; conforming, non-conforming, holding a nested namespace); inputs = every nested dictionary '
                 'over {absent, 1, "a", -1} per port, {absent, {}, ...} per namespace and undeclared keys '
                 '{u:1, u:"a", u:{v:1}, u:{v:"a"}}; states = specs, distinct_nontrivial = specs with at least one '
-                'accepted and one rejected input',
+                'accepted and one rejected input; the first accepted inputs of every spec are constructed once more at the '
+                'end and must give the same inputs',
         'samples': [{'spec': repr(sample_spec), 'inputs': repr(sample_inputs[len(sample_inputs) // 2])}],
         'exhaustive': True,
     }
     return {'violations': violations, 'coverage': coverage, 'errors': [], 'level': 'model_checking',
             'assumptions': ['outside the alphabet (statement silent): non-mapping values for a namespace, None as a value, '
-                            'defaults on a PortNamespace itself, one-argument validators, invalid static defaults',
+                            'one-argument validators, invalid static defaults of ports',
                             'presence of empty mappings for declared namespaces is not judged',
                             'the "random beyond" part of the quantifier is sampling and is not done (different family)'],
             'bounds': {'tier': tier, 'specs': len(all_specs), 'depth': 3}}
